@@ -218,7 +218,7 @@ theorem tupleUnmarshalStruct_np (len : Nat) (data : Tuple) (numField : Nat) :
   · rename_i h
     have hl : len = numField := by omega
     cases data with
-    | nil => rfl
+    | nil => simp only [if_true]; split <;> rfl
     | node head tail =>
       simp only
       split
